@@ -140,6 +140,25 @@ func lockMode() string {
 		}
 		return true
 	})
+	// every branch of the function is "the handle is nil" (no file could be opened: try the next way / give up) or the flock result:
+	// a way to give up although a file was opened is not a shape the model knows
+	ast.Inspect(fd.Body, func(n ast.Node) bool {
+		ifs, ok := n.(*ast.IfStmt)
+		if !ok {
+			return true
+		}
+		c := src(ifs.Cond)
+		switch {
+		case strings.HasSuffix(c, "==nil") && ifs.Init == nil && !strings.Contains(c, "&&") && !strings.Contains(c, "||"):
+		case ifs.Init != nil && strings.Contains(src(ifs.Init), "syscall.Flock(") && strings.HasSuffix(c, "!=nil") && !strings.Contains(c, "&&") && !strings.Contains(c, "||"):
+		default:
+			die(fmt.Errorf("LockDatabaseDir: the branch `if %s` is neither `<handle> == nil` nor the result of syscall.Flock - not a shape the model knows", c))
+		}
+		if ifs.Else != nil {
+			die(fmt.Errorf("LockDatabaseDir: `if %s` has an else branch - not a shape the model knows", c))
+		}
+		return true
+	})
 	switch {
 	case !sawOpen:
 		die(fmt.Errorf("LockDatabaseDir: no os.Open / os.Create / os.OpenFile call - not a shape the model knows"))
@@ -293,6 +312,13 @@ func reapplyGuard(files map[string]*ast.File) string {
 				if src(hiSide) != arg+".Height" {
 					die(fmt.Errorf("NewChainExt: comparison %q does not ask whether the block handed to ParseTillBlock (%s) is the higher one", s, arg))
 				}
+				loSide := b.Y
+				if b.Op == token.LSS {
+					loSide = b.X
+				}
+				if !strings.HasSuffix(src(loSide), ".LastBlock().Height") {
+					die(fmt.Errorf("NewChainExt: comparison %q does not compare with the height of the current block (<chain>.LastBlock().Height)", s))
+				}
 				set("higher", e)
 			case b.Op == token.NEQ && !isHeight(b.X) && !isHeight(b.Y) && (src(b.X) == arg || src(b.Y) == arg):
 				set("differs", e)
@@ -315,6 +341,27 @@ func idleOrder(files map[string]*ast.File) bool {
 		die(fmt.Errorf("lib/chain: Chain.Idle not found"))
 	}
 	posB, posU := token.NoPos, token.NoPos
+	// the two calls must be executed where they stand: a call that is deferred, started as a goroutine or wrapped in a function
+	// literal runs at another time than its position says
+	ast.Inspect(fd.Body, func(n ast.Node) bool {
+		var inner ast.Node
+		what := ""
+		switch x := n.(type) {
+		case *ast.DeferStmt:
+			inner, what = x.Call, "deferred"
+		case *ast.GoStmt:
+			inner, what = x.Call, "started as a goroutine"
+		case *ast.FuncLit:
+			inner, what = x.Body, "inside a function literal"
+		}
+		if inner != nil {
+			t := src(inner)
+			if strings.Contains(t, ".Blocks.Idle(") || strings.Contains(t, ".Unspent.Idle(") {
+				die(fmt.Errorf("Chain.Idle: a call of Blocks.Idle / Unspent.Idle is %s - not a shape the model knows", what))
+			}
+		}
+		return true
+	})
 	ast.Inspect(fd.Body, func(n ast.Node) bool {
 		if c, ok := n.(*ast.CallExpr); ok {
 			s := src(c.Fun)
@@ -524,7 +571,41 @@ func flagSource(files map[string]*ast.File) string {
 			if len(x.Lhs) == 1 && len(x.Rhs) == 1 {
 				if ix, ok := x.Lhs[0].(*ast.IndexExpr); ok {
 					evs = append(evs, ev{kind: x.Tok.String(), buf: src(ix.X), pos: src(ix.Index), rhs: src(x.Rhs[0]), at: x.Pos()})
+					return true
 				}
+			}
+			// the buffer variable itself (or a slice / element of it) on the left of any other assignment
+			for _, l := range x.Lhs {
+				base := l
+				for {
+					switch y := base.(type) {
+					case *ast.IndexExpr:
+						base = y.X
+						continue
+					case *ast.SliceExpr:
+						base = y.X
+						continue
+					case *ast.ParenExpr:
+						base = y.X
+						continue
+					case *ast.StarExpr:
+						base = y.X
+						continue
+					}
+					break
+				}
+				if id, ok := base.(*ast.Ident); ok {
+					evs = append(evs, ev{kind: "whole", buf: id.Name, at: x.Pos()})
+				}
+			}
+		case *ast.IncDecStmt:
+			if ix, ok := x.X.(*ast.IndexExpr); ok {
+				evs = append(evs, ev{kind: "whole", buf: src(ix.X), at: x.Pos()})
+			}
+		}
+		if c, ok := n.(*ast.CallExpr); ok {
+			if id, ok := c.Fun.(*ast.Ident); ok && id.Name == "copy" && len(c.Args) == 2 {
+				evs = append(evs, ev{kind: "whole", buf: strings.TrimSuffix(src(c.Args[0]), "[:]"), at: c.Pos()})
 			}
 		}
 		return true
@@ -548,6 +629,11 @@ func flagSource(files map[string]*ast.File) string {
 			continue
 		}
 		switch e.kind {
+		case "whole":
+			if read {
+				die(fmt.Errorf("BlockDB.setBlockFlag: the buffer %s is assigned between the read of the byte and its write", e.buf))
+			}
+			ored = false
 		case "ReadAt":
 			if e.pos != wr.pos {
 				die(fmt.Errorf("BlockDB.setBlockFlag: the byte is read at %s and written at %s", e.pos, wr.pos))
@@ -693,49 +779,72 @@ func closeGuard(p *utxoPkg) string {
 	if fd == nil {
 		die(fmt.Errorf("lib/utxo: UnspentDB.Close not found"))
 	}
+	// the conditions of EVERY if statement that encloses the call of Save (an inner `if heights differ { Save() }` under an outer
+	// `if dirty` is a guard by height as well)
 	var conds []ast.Expr
-	saves, bare := 0, 0
-	for _, st := range fd.Body.List {
-		if ifs, ok := st.(*ast.IfStmt); ok {
-			calls := false
-			for _, c := range callsOf(ifs.Body, p.methods) {
-				if c == "Save" || c == "save" {
-					calls = true
-				}
-			}
-			if calls {
-				saves++
-				conds = append(conds, ifs.Cond)
-				if ifs.Else != nil {
-					die(fmt.Errorf("UnspentDB.Close: the save is one arm of an if/else - not a shape the model knows"))
-				}
-			}
-			continue
-		}
-		for _, c := range callsOf(st, p.methods) {
+	saves := 0
+	isSave := func(n ast.Node) bool {
+		for _, c := range callsOf(n, p.methods) {
 			if c == "Save" || c == "save" {
-				bare++
+				return true
 			}
 		}
+		return false
 	}
-	if bare > 0 {
-		die(fmt.Errorf("UnspentDB.Close: an unconditional save - not a shape the model knows"))
+	var walk func(st ast.Stmt, stack []ast.Expr)
+	walk = func(st ast.Stmt, stack []ast.Expr) {
+		if !isSave(st) {
+			return
+		}
+		switch x := st.(type) {
+		case *ast.BlockStmt:
+			for _, s2 := range x.List {
+				walk(s2, stack)
+			}
+		case *ast.IfStmt:
+			if x.Else != nil && isSave(x.Else) {
+				die(fmt.Errorf("UnspentDB.Close: the save is in an else branch - not a shape the model knows"))
+			}
+			if x.Init != nil && isSave(x.Init) {
+				die(fmt.Errorf("UnspentDB.Close: the save is called in the init statement of an if - not a shape the model knows"))
+			}
+			if isSave(x.Cond) {
+				die(fmt.Errorf("UnspentDB.Close: the save is called inside a condition - not a shape the model knows"))
+			}
+			walk(x.Body, append(append([]ast.Expr{}, stack...), x.Cond))
+		case *ast.ExprStmt:
+			if len(stack) == 0 {
+				die(fmt.Errorf("UnspentDB.Close: an unconditional save - not a shape the model knows"))
+			}
+			saves++
+			conds = append(conds, stack...)
+		default:
+			die(fmt.Errorf("UnspentDB.Close: the save is called inside %T - not a shape the model knows", st))
+		}
 	}
+	walk(fd.Body, nil)
 	if saves != 1 {
 		die(fmt.Errorf("UnspentDB.Close: %d conditional saves (the model was written for exactly one)", saves))
 	}
-	cond := conds[0]
-	for {
-		if pe, ok := cond.(*ast.ParenExpr); ok {
-			cond = pe.X
-			continue
-		}
-		break
+	var all1 []ast.Expr
+	for _, c := range conds {
+		all1 = append(all1, conjuncts(c)...)
 	}
-	text := src(cond)
-	if strings.HasSuffix(text, ".DirtyDB.Get()") && strings.Count(text, "(") == 1 {
+	onlyDirty := true
+	for _, c := range all1 {
+		t := src(c)
+		if !(strings.HasSuffix(t, ".DirtyDB.Get()") && strings.Count(t, "(") == 1 && !strings.HasPrefix(t, "!")) {
+			onlyDirty = false
+		}
+	}
+	if onlyDirty && len(all1) > 0 {
 		return "dirty"
 	}
+	var cond ast.Expr = all1[0]
+	for _, c := range all1[1:] {
+		cond = &ast.BinaryExpr{X: cond, Op: token.LAND, Y: c}
+	}
+	text := src(cond)
 	// everything the condition can reach through methods of UnspentDB
 	seen := map[string]bool{}
 	all := text
@@ -760,6 +869,221 @@ func closeGuard(p *utxoPkg) string {
 	return ""
 }
 
+// ------------------------------------------------------------------------------------------ 9-11. the dirty flag
+
+func isDirtyCall(n ast.Node, what string) bool {
+	es, ok := n.(*ast.ExprStmt)
+	if !ok {
+		return false
+	}
+	c, ok := es.X.(*ast.CallExpr)
+	return ok && strings.HasSuffix(src(c.Fun), ".DirtyDB."+what) && len(c.Args) == 0
+}
+
+// setsDirty: the method marks the set dirty on every path that returns normally: `db.DirtyDB.Set()` is a plain statement at the
+// top level of the method (not under an if / loop / defer / go / function literal), no `return` stands in front of it (outside
+// function literals) and the method never clears the flag.
+func (p *utxoPkg) setsDirty(name string) bool {
+	fd := p.methods[name]
+	if fd == nil {
+		die(fmt.Errorf("lib/utxo: UnspentDB.%s not found", name))
+	}
+	at := token.NoPos
+	for _, st := range fd.Body.List {
+		if isDirtyCall(st, "Set") && at == token.NoPos {
+			at = st.Pos()
+		}
+	}
+	if strings.Contains(src(fd.Body), ".DirtyDB.Clr()") {
+		die(fmt.Errorf("UnspentDB.%s clears the dirty flag - not a shape the model knows", name))
+	}
+	if at == token.NoPos {
+		if strings.Contains(src(fd.Body), ".DirtyDB.Set()") {
+			die(fmt.Errorf("UnspentDB.%s: DirtyDB.Set() is not a plain top-level statement (conditional / deferred / in a goroutine) - not a shape the model knows", name))
+		}
+		return false
+	}
+	early := false
+	var scan func(n ast.Node)
+	scan = func(n ast.Node) {
+		ast.Inspect(n, func(m ast.Node) bool {
+			switch x := m.(type) {
+			case *ast.FuncLit:
+				return false
+			case *ast.ReturnStmt:
+				if x.Pos() < at {
+					early = true
+				}
+			case *ast.BranchStmt:
+				if x.Tok == token.GOTO && x.Pos() < at {
+					early = true
+				}
+			}
+			return true
+		})
+	}
+	scan(fd.Body)
+	if early {
+		die(fmt.Errorf("UnspentDB.%s: a return / goto stands in front of DirtyDB.Set() - not a shape the model knows", name))
+	}
+	return true
+}
+
+// clearsOnlyWhenComplete: the dirty flag is cleared nowhere in lib/utxo but in UnspentDB.save, and there only under `if !abort`
+// (the walk over the maps was not aborted)
+func (p *utxoPkg) clearsOnlyWhenComplete() bool {
+	n := 0
+	for name, fd := range p.methods {
+		if name != "save" && strings.Contains(src(fd.Body), ".DirtyDB.Clr()") {
+			die(fmt.Errorf("UnspentDB.%s clears the dirty flag (only save() is expected to) - not a shape the model knows", name))
+		}
+	}
+	fd := p.methods["save"]
+	if fd == nil {
+		die(fmt.Errorf("lib/utxo: UnspentDB.save not found"))
+	}
+	ok := true
+	var walk func(m ast.Node, guarded bool)
+	walk = func(m ast.Node, guarded bool) {
+		ast.Inspect(m, func(x ast.Node) bool {
+			if x == m {
+				return true
+			}
+			if ifs, isIf := x.(*ast.IfStmt); isIf {
+				g := guarded
+				for _, c := range conjuncts(ifs.Cond) {
+					if src(c) == "!abort" {
+						g = true
+					}
+				}
+				if ifs.Init != nil {
+					walk(ifs.Init, guarded)
+				}
+				walk(ifs.Body, g)
+				if ifs.Else != nil {
+					walk(ifs.Else, guarded)
+				}
+				return false
+			}
+			if st, isSt := x.(ast.Stmt); isSt && isDirtyCall(st, "Clr") {
+				n++
+				if !guarded {
+					ok = false
+				}
+			}
+			return true
+		})
+	}
+	walk(fd.Body, false)
+	if n == 0 {
+		die(fmt.Errorf("UnspentDB.save never clears the dirty flag - not a shape the model knows"))
+	}
+	return ok
+}
+
+// ------------------------------------------------------------------------------------------ 12. LoadBlockIndex: where the index handle is left
+
+// loadSeeks: after the loop that reads the records, LoadBlockIndex positions the handle of blockchain.new at db.maxidxfilepos
+// (BlockDB.writeOne appends with blockindx.Write - at the HANDLE's offset; the models identify the two) and does not move it again
+func loadSeeks(files map[string]*ast.File) bool {
+	fd := blockDBMethod(files, "LoadBlockIndex")
+	loopAt := -1
+	for i, st := range fd.Body.List {
+		if f, ok := st.(*ast.ForStmt); ok && strings.Contains(src(f.Body), "io.ReadFull(") {
+			loopAt = i
+		}
+	}
+	if loopAt < 0 {
+		die(fmt.Errorf("BlockDB.LoadBlockIndex: the loop reading 136-byte records is not a top-level statement"))
+	}
+	seeks, good := 0, false
+	for _, st := range fd.Body.List[loopAt+1:] {
+		t := src(st)
+		if !strings.Contains(t, ".blockindx.") {
+			continue
+		}
+		es, ok := st.(*ast.ExprStmt)
+		if !ok {
+			die(fmt.Errorf("BlockDB.LoadBlockIndex: the index handle is used after the loop in %q - not a shape the model knows", t))
+		}
+		c, ok := es.X.(*ast.CallExpr)
+		if !ok || !strings.HasSuffix(src(c.Fun), ".blockindx.Seek") || len(c.Args) != 2 {
+			die(fmt.Errorf("BlockDB.LoadBlockIndex: the index handle is used after the loop in %q - not a shape the model knows", t))
+		}
+		seeks++
+		wh := src(c.Args[1])
+		good = strings.HasSuffix(src(c.Args[0]), ".maxidxfilepos") && (wh == "os.SEEK_SET" || wh == "io.SeekStart" || wh == "0")
+	}
+	if seeks > 1 {
+		die(fmt.Errorf("BlockDB.LoadBlockIndex: the index handle is positioned %d times after the loop", seeks))
+	}
+	return seeks == 1 && good
+}
+
+// ------------------------------------------------------------------------------------------ 13/14. the client's side of the restart
+
+// clientFacts: the two places of the client that the harness re-implements instead of running (child.go clientRecover / childMain):
+// client/init.go opens the chain with DoNotRescan: true (key of the NewChanOpts literal); client/main.go LocalAcceptBlock calls, as
+// plain statements in this order, Unspent.AbortWriting(), Blocks.BlockAdd(..), BlockChain.CommitBlock(..).
+func clientFacts() (doNotRescan, acceptOrder bool) {
+	files := parseDir("client")
+	initF := files["init.go"]
+	if initF == nil {
+		die(fmt.Errorf("client/init.go not found"))
+	}
+	n := 0
+	ast.Inspect(initF, func(m ast.Node) bool {
+		if kv, ok := m.(*ast.KeyValueExpr); ok && src(kv.Key) == "DoNotRescan" {
+			n++
+			doNotRescan = src(kv.Value) == "true"
+		}
+		if a, ok := m.(*ast.AssignStmt); ok {
+			for _, l := range a.Lhs {
+				if strings.HasSuffix(src(l), ".DoNotRescan") {
+					die(fmt.Errorf("client/init.go: DoNotRescan is assigned outside the options literal - not a shape the model knows"))
+				}
+			}
+		}
+		return true
+	})
+	if n != 1 {
+		die(fmt.Errorf("client/init.go: %d `DoNotRescan:` keys (one expected)", n))
+	}
+	fd := findFunc(files, "", "LocalAcceptBlock")
+	if fd == nil {
+		die(fmt.Errorf("client: LocalAcceptBlock not found"))
+	}
+	pos := map[string]int{}
+	for i, st := range fd.Body.List {
+		var call ast.Expr
+		switch x := st.(type) {
+		case *ast.ExprStmt:
+			call = x.X
+		case *ast.AssignStmt:
+			if len(x.Rhs) == 1 {
+				call = x.Rhs[0]
+			}
+		}
+		t := ""
+		if call != nil {
+			t = src(call)
+		}
+		for _, k := range []string{".Unspent.AbortWriting(", ".Blocks.BlockAdd(", ".BlockChain.CommitBlock("} {
+			if strings.Contains(src(st), k) {
+				if call == nil || !strings.Contains(t, k) || pos[k] != 0 {
+					die(fmt.Errorf("client.LocalAcceptBlock: %s is not called exactly once as a plain top-level statement - not a shape the model knows", strings.Trim(k, ".(")))
+				}
+				pos[k] = i + 1
+			}
+		}
+	}
+	a, b, c := pos[".Unspent.AbortWriting("], pos[".Blocks.BlockAdd("], pos[".BlockChain.CommitBlock("]
+	if a == 0 || b == 0 || c == 0 {
+		die(fmt.Errorf("client.LocalAcceptBlock: AbortWriting / BlockAdd / CommitBlock not all found at the top level"))
+	}
+	return doNotRescan, a < b && b < c
+}
+
 func main() {
 	chainFiles := parseDir("lib/chain")
 	lm := lockMode()
@@ -771,9 +1095,14 @@ func main() {
 	fs := flagSource(chainFiles)
 	ia := invalidAdvances(chainFiles)
 	cg := closeGuard(up)
+	cd := up.setsDirty("CommitBlockTxs")
+	ud := up.setsDirty("UndoBlockTxs")
+	sc := up.clearsOnlyWhenComplete()
+	ls := loadSeeks(chainFiles)
+	dnr, cao := clientFacts()
 
 	var sb strings.Builder
-	sb.WriteString("/- GENERATED by go/cmd/gen_c07 from lib/others/sys/dblock_unix.go, lib/chain/chain.go, lib/chain/blockdb.go, lib/utxo/*.go — do not edit; not in git. -/\n")
+	sb.WriteString("/- GENERATED by go/cmd/gen_c07 from lib/others/sys/dblock_unix.go, lib/chain/chain.go, lib/chain/blockdb.go, lib/utxo/*.go, client/init.go, client/main.go — do not edit; not in git. -/\n")
 	sb.WriteString("namespace GocoinV.Gen.C07Facts\n\n")
 	sb.WriteString("/-- how LockDatabaseDir (unix) obtains <datadir>/.lock -/\ninductive LockOpenMode | openOrCreate | removeThenExcl | createExcl\nderiving Repr, DecidableEq\n\n")
 	fmt.Fprintf(&sb, "def lockOpenMode : LockOpenMode := .%s\n\n", lm)
@@ -786,7 +1115,13 @@ func main() {
 	fmt.Fprintf(&sb, "def flagRewriteSource : FlagSource := .%s\n\n", fs)
 	fmt.Fprintf(&sb, "/-- BlockDB.LoadBlockIndex: a record flagged BLOCK_INVALID advances the index position by its 136 bytes -/\ndef invalidRecordAdvances : Bool := %v\n\n", ia)
 	sb.WriteString("/-- UnspentDB.Close writes UTXO.db when the set is dirty / when it is dirty and the heights in memory and on disk differ -/\ninductive CloseGuard | dirty | dirtyAndHeightDiffers\nderiving Repr, DecidableEq\n\n")
-	fmt.Fprintf(&sb, "def closeSaveGuard : CloseGuard := .%s\n", cg)
+	fmt.Fprintf(&sb, "def closeSaveGuard : CloseGuard := .%s\n\n", cg)
+	fmt.Fprintf(&sb, "/-- UnspentDB.CommitBlockTxs marks the set dirty on every path that returns (plain top-level DirtyDB.Set()) -/\ndef commitSetsDirty : Bool := %v\n", cd)
+	fmt.Fprintf(&sb, "/-- UnspentDB.UndoBlockTxs marks the set dirty on every path that returns -/\ndef undoSetsDirty : Bool := %v\n", ud)
+	fmt.Fprintf(&sb, "/-- the dirty flag is cleared only by UnspentDB.save and only when its walk was not aborted -/\ndef saveClearsDirtyOnlyWhenComplete : Bool := %v\n", sc)
+	fmt.Fprintf(&sb, "/-- client/init.go opens the chain with DoNotRescan: true -/\ndef clientDoNotRescan : Bool := %v\n", dnr)
+	fmt.Fprintf(&sb, "/-- client/main.go LocalAcceptBlock: AbortWriting, then BlockAdd, then CommitBlock (plain top-level statements) -/\ndef clientAcceptOrder : Bool := %v\n", cao)
+	fmt.Fprintf(&sb, "/-- BlockDB.LoadBlockIndex leaves the handle of blockchain.new at maxidxfilepos (Seek after the loop): the next record is appended there -/\ndef loadSeeksAppendPos : Bool := %v\n", ls)
 	sb.WriteString("\nend GocoinV.Gen.C07Facts\n")
 	out := vlib.Root() + "/lean/GocoinV/Gen/C07Facts.lean"
 	if o := os.Getenv("GEN_C07_OUT"); o != "" { // experiments: leave the shared Gen/ file alone
@@ -796,5 +1131,5 @@ func main() {
 	if err := os.WriteFile(out, []byte(sb.String()), 0644); err != nil {
 		die(err)
 	}
-	fmt.Printf("FACTS 8\n")
+	fmt.Printf("FACTS 14\n")
 }
